@@ -71,16 +71,27 @@ int expect(const Ctx& cx, size_t k, double delta, JoinType jt, double ml, double
   return -1;
 }
 
+// route by which the offset is obtained (chosen per case): 0 Execute(delta, Paths64&) on a fresh object, 1 Execute into a
+// PolyTree64 (flattened), 2 one object executed into a tree first and into paths afterwards, 3 the InflatePaths function
+int g_route = 0;
 Paths64 offset(const Paths64& poly, double delta, JoinType jt, double ml, double at, bool rev) {
+  if (g_route == 3 && !rev) return InflatePaths(poly, delta, jt, EndType::Polygon, ml, at);
   ClipperOffset co(ml, at, false, rev);
   co.AddPaths(poly, jt, EndType::Polygon);
   Paths64 sol;
+  if (g_route == 1 || g_route == 2) {
+    PolyTree64 tree;
+    co.Execute(delta, tree);
+    if (g_route == 1) return PolyTreeToPaths64(tree);
+  }
   co.Execute(delta, sol);
   return sol;
 }
 
 Verdict judge(const Case& c) {
   Verdict v;
+  g_route = (int)c.I("route", 0);
+  ST.count("route_" + std::to_string(g_route));
   const Paths64& poly = c.P("poly");
   if (poly.empty() || c.P("samples").empty()) { v.discard = true; return v; }
   if (!OFS::validSimple(poly, 10.0)) { v.discard = true; ST.count("discard_not_simple_or_too_sharp"); return v; }
@@ -154,6 +165,7 @@ Case gen() {
   c.d["ml"] = G::chance(20) ? G::real(0.0, 1.0) : G::real(1.0, 5.0);
   c.d["at"] = G::coin() ? 0.0 : G::real(0.05, 3.0);
   c.i["rev"] = G::range(0, 1);
+  c.i["route"] = G::chance(40) ? 0 : G::range(1, 3);
   double kf = std::max(c.d["ml"], std::sqrt(2.0));
   c.p["samples"] = {OFS::samplePoints(poly, true, ad, kf, OFS::tolOf(c.d["at"], ad), 12)};
   return c;
